@@ -83,6 +83,14 @@ pub fn fuzz_eval(target: &str, data: &[u8]) -> Option<crate::engine::CaseResult>
             let case = c17::case_from_bytes(data).ok()?;
             Some(crate::engine::fuzz::eval_case(|rec| c17::check_case(&case, rec)))
         }
+        "c12_instance" => {
+            let case = c12::case_from_bytes(data).ok()?;
+            Some(crate::engine::fuzz::eval_case(|rec| c12::check_case(&case, rec)))
+        }
+        "c08_subset_cmap" => {
+            let case = c08::case_from_bytes(data).ok()?;
+            Some(crate::engine::fuzz::eval_case(|rec| c08::check_gen(&case, rec)))
+        }
         _ => None,
     }
 }
@@ -101,6 +109,8 @@ pub fn fuzz_target_property(target: &str) -> Option<&'static str> {
         "c10_container" => Some("C10"),
         "c17_text" => Some("C17"),
         "c13_norm" => Some("C13"),
+        "c12_instance" => Some("C12"),
+        "c08_subset_cmap" => Some("C08"),
         _ => None,
     }
 }
